@@ -8,6 +8,7 @@ import (
 	"encoding/json"
 	"fmt"
 	"os"
+	"sync/atomic"
 	"time"
 
 	lcrypto "github.com/libp2p/go-libp2p/core/crypto"
@@ -108,7 +109,7 @@ func (w *nullWriter) Error(e error)  { w.err = e }
 
 var fakePeers []p2p.PeerID
 var fakeAddr ma.Multiaddr
-var peerRR int
+var peerRR int64
 
 func init() {
 	for i := 0; i < 64; i++ {
@@ -128,8 +129,7 @@ func init() {
 }
 
 func nextPeer() p2p.PeerID {
-	peerRR++
-	return fakePeers[peerRR%len(fakePeers)]
+	return fakePeers[int(atomic.AddInt64(&peerRR, 1))%len(fakePeers)]
 }
 
 func buildEntries(w *World) []*Entry {
@@ -320,11 +320,32 @@ func buildEntries(w *World) []*Entry {
 	rpc("sync.rpc.getBlocksFromId", w.Syncer.HandleRPCEndpointGetBlocksFromID(), []string{"sync.GetBlocksFromIDRequest"}, lsync.RPCEndpointGetBlocksFromID)
 	rpc("sync.rpc.getLastBlock", w.Syncer.HandleRPCEndpointGetLastBlock(), []string{"sync.GetBlocksFromIDRequest"}, lsync.RPCEndpointGetLastBlock)
 	rpc("txpool.rpc.getTransactions", w.PoolConn.rpc[txpool.RPCEndpointGetTransactions], []string{"sync.GetBlocksFromIDRequest"}, txpool.RPCEndpointGetTransactions)
+	// the request stream handler runs on the probe connection (real handlers behind a counter, one fresh remote address per
+	// call): the entry reports what became of the request - "handled" (the registered handler ran), "banned" (the sender's
+	// address is banned), "dropped" (neither).  Which of the three a malformed request gets is not judged.
+	var reqCtr uint32
+	onRequest := func(data []byte) string {
+		if w.Probe == nil {
+			return "no-network" // (worlds built for the entry list only)
+		}
+		reqSeq := atomic.AddUint32(&reqCtr, 1)
+		ip := fmt.Sprintf("10.%d.%d.%d", 1+reqSeq>>16&0x7f, reqSeq>>8&0xff, reqSeq&0xff)
+		addr, err := ma.NewMultiaddr("/ip4/" + ip + "/tcp/4002")
+		if err != nil {
+			panic(err)
+		}
+		before := atomic.LoadInt64(&w.ProbeHandled)
+		w.Probe.VerifOnRequest(context.Background(), nextPeer(), addr, data)
+		if atomic.LoadInt64(&w.ProbeHandled) > before {
+			return "handled"
+		}
+		if _, banned, _ := w.Probe.VerifGater().Score(ip); banned {
+			return "banned"
+		}
+		return "dropped"
+	}
 	add(&Entry{Name: "p2p.onRequest", Net: true, Tags: []string{"p2p.Request"}, AllocConst: 4 << 20, Box: 5 * time.Second,
-		Fn: func(in []byte) string {
-			n.Conn.VerifOnRequest(context.Background(), nextPeer(), fakeAddr, in)
-			return "returned"
-		}})
+		Fn: func(in []byte) string { return onRequest(in) }})
 	add(&Entry{Name: "p2p.onResponse", Net: true, Tags: []string{"p2p.responseMsg"}, AllocConst: 1 << 20,
 		Fn: func(in []byte) string {
 			n.Conn.VerifOnResponse(nextPeer(), fakeAddr, in)
@@ -336,8 +357,7 @@ func buildEntries(w *World) []*Entry {
 		add(&Entry{Name: "p2p.onRequest:" + proc, Net: true, Tags: []string{tag}, AllocConst: 4 << 20, Box: 5 * time.Second,
 			Fn: func(in []byte) string {
 				req := &p2p.Request{ID: "0f0e0d0c-verif", Procedure: proc, Data: in}
-				n.Conn.VerifOnRequest(context.Background(), nextPeer(), fakeAddr, req.Encode())
-				return "returned"
+				return onRequest(req.Encode())
 			}})
 	}
 
@@ -359,6 +379,40 @@ func buildEntries(w *World) []*Entry {
 			return "undecodable"
 		}
 		return vbool(rmt.VerifyProof(w.RmtQueries, p, w.RmtRoot))
+	}})
+	// the same two with query lists that FIT the (mutated) proof: the count checks at the top of the verifiers pass and the
+	// code behind them sees the mutant (query keys = the keys of the proof's own queries; as many query hashes as indexes)
+	add(&Entry{Name: "smt.Verify(bytes,keys-of-proof)", Pure: true, Net: true, Tags: []string{"smt.Proof"}, Fn: func(in []byte) string {
+		p := &smt.Proof{}
+		if err := p.Decode(in); err != nil {
+			return "undecodable"
+		}
+		keys := make([][]byte, len(p.Queries))
+		for i, q := range p.Queries {
+			if q != nil {
+				keys[i] = append([]byte{}, q.Key...)
+			}
+		}
+		ok, err := smt.Verify(keys, p, w.SmtRoot, smtKeyLen)
+		if err != nil {
+			return "reject"
+		}
+		return vbool(ok)
+	}})
+	add(&Entry{Name: "rmt.VerifyProof(bytes,queries-by-count)", Pure: true, Net: true, Tags: []string{"rmt.Proof"}, Fn: func(in []byte) string {
+		p := &rmt.Proof{}
+		if err := p.Decode(in); err != nil {
+			return "undecodable"
+		}
+		n := len(p.Idxs)
+		if n > 4096 {
+			n = 4096
+		}
+		qs := make([][]byte, n)
+		for i := range qs {
+			qs[i] = w.RmtQueries[i%len(w.RmtQueries)]
+		}
+		return vbool(rmt.VerifyProof(qs, p, w.RmtRoot))
 	}})
 	add(&Entry{Name: "rmt.CalculateRootFromUpdateData(bytes)", Pure: true, Net: true, Tags: []string{"rmt.Proof"}, Fn: func(in []byte) string {
 		p := &rmt.Proof{}
@@ -460,6 +514,11 @@ func buildEntries(w *World) []*Entry {
 	}
 	w.rpc = rw
 	buildRPCEntries(w, rw, add)
+	// ---- scenario entries (run by the scenario child only: `c09 scen`)
+	addSyncEntries(add)
+	addStatefulEntries(w, add)
+	addBurstEntries(w, &es, add)
+	addRPCScenEntries(add)
 
 	return es
 }
